@@ -50,7 +50,9 @@ arity marker; the table below spells each signature out. -/
 def flat (L : Nat) (j : Nat) : E := if j < L then v j else zero
 def ctorKeys : List (List Nat) :=
   [[1,0],[2,0],[3,0],[4,0],[2,5],[3,25],[4,125],[2,6],[2,10],[2,11],[3,31],[4,156],[3,7],[3,10],[4,27],[4,35],[4,75],
-   [4,12],[4,8],[4,15],[2,3],[2,4],[3,4]]
+   [4,12],[4,8],[4,15],[2,3],[2,4],[3,4],
+   -- every argument-shape overload (scalars, vec1, vec2, vec3 in every order), codes 1001…
+   [2,1001],[2,1002],[2,1003],[2,1004],[3,1005],[3,1006],[3,1007],[3,1008],[3,1009],[3,1010],[3,1011],[3,1012],[3,1013],[3,1014],[3,1015],[3,1016],[4,1017],[4,1018],[4,1019],[4,1020],[4,1021],[4,1022],[4,1023],[4,1024],[4,1025],[4,1026],[4,1027],[4,1028],[4,1029],[4,1030],[4,1031],[4,1032],[4,1033],[4,1034],[4,1035],[4,1036],[4,1037],[4,1038],[4,1039],[4,1040],[4,1041],[4,1042],[4,1043],[4,1044],[4,1045],[4,1046],[4,1047],[4,1048],[4,1049]]
 /-- every listed signature fills component `j` with the `j`-th flattened argument component (inputs are the
 flattened arguments in order), except the single-scalar forms, which broadcast input 0 -/
 def f_ctor : Family :=
